@@ -184,21 +184,29 @@ def check_module(ctx, s, idx, case):
     from xdoctest import core
     s = s.replace('\x00', '')
     rng = random.Random(idx)
-    trip = '"""' not in s and '\\' not in s and not s.endswith('"') and '\r' not in s
+    # (a raw carriage return inside the literal is a line end for the compiler, like LF)
+    trip = '"""' not in s and '\\' not in s and not s.endswith('"')
     lit = ('r"""' + s + '"""') if trip and rng.random() < 0.7 else repr(s)
-    src = GOOD1.format(m=idx) + 'def bad():\n    %s\n' % lit + GOOD2.format(m=idx)
+    good2 = GOOD2.format(m=idx)
+    if rng.random() < 0.4:
+        # the neighbour after the malformed docstring is decorated
+        good2 = rng.choice(['@staticmethod\n', '@_deco\n', '@_deco2(\n    1)\n']) + good2
+    src = GOOD1.format(m=idx) + 'def bad():\n    %s\n' % lit + good2
+    if '\r' in lit:
+        ctx.cell('module:raw-carriage-return')
     if rng.random() < 0.3:
         src = 'class K:\n' + '\n'.join(('    ' + ln if ln else ln) for ln in src.split('\n'))
         prefix = 'K.'
     else:
         prefix = ''
+    src = 'def _deco(f):\n    return f\ndef _deco2(a):\n    return _deco\n' + src
     try:
         compile(src, 'x', 'exec')
     except Exception:
         ctx.cell('module:generator-invalid')
         return
     path = os.path.join(ctx.tmp, 'fz_%d_%d_zz.py' % (ctx.shard, idx))
-    with open(path, 'w', encoding='utf8') as f:
+    with open(path, 'w', encoding='utf8', newline='') as f:
         f.write(src)
     try:
         for style in ('auto', 'google', 'freeform'):
@@ -245,7 +253,8 @@ def check_module(ctx, s, idx, case):
 def required_cells(tier):
     return ['parse:returned', 'parse:DoctestParseError(SyntaxError)', 'parse:DoctestParseError(IncompleteParseError)',
             'extract:warned-and-empty', 'extract:example-parses', 'module:neighbours-ok:auto',
-            'module:neighbours-ok:google', 'module:neighbours-ok:freeform', 'origin:fuzz', 'origin:damaged'] + \
+            'module:neighbours-ok:google', 'module:neighbours-ok:freeform', 'origin:fuzz', 'origin:damaged',
+            'module:raw-carriage-return'] + \
         ['broken-by-construction:' + k for k in BROKEN_FRAGMENTS] + ['broken-shape:single-statement',
                                                                       'broken-shape:statement-with-want']
 
